@@ -416,3 +416,51 @@ CONTRACTS.append(Contract(
     params={"self": ty.TObj("StatementLowerer", only=("StatementLowerer",)), "expr": ty.TObj("Expr", only=("IdentifierExpr", "NumberLiteral", "BundleAllExpr"))},
     ensures=[("anything that is not a binary operation is not inlinable", lambda a, res: res is False or res == False)],  # noqa: E712
     uses=_inl_uses, dynamic_types=_AS_DYN, properties=("C06", "C02"), min_obligations=1, no_replay=True, note="not a binary operation"))
+
+
+# =================================================================================================
+# lower_decl_stmt, initialiser is a function call `T name = f(...)` (C15 / C20): the call is lowered once; a BUNDLE result is declared
+# under the name exactly like any other bundle (its producer keeps its combinator and carries the name: user_declared, declared_name,
+# label); a signal / integer result is bound and annotated; an entity the call returned is registered under the name.
+# =================================================================================================
+def _call_lower(ex, a):
+    e = a.args[0]
+    r = ghost(e, "lowered", _LOWERED)
+    ent = ghost(e, "returned_entity", ty.TOpt(ty.Str))
+    ex.set_attr(ex.args_ns.self.parent, "returned_entity_id", ent)
+    return r
+
+
+def _call_post(a, res):
+    stmt = a.stmt
+    lowered = stmt.value._fields.get("@lowered")
+    if "@lowered" not in stmt.value._fields:
+        return False
+    bound = _bound(a)
+    ent = stmt.value._fields.get("@returned_entity")
+    erefs, erefs0 = a.self.parent.entity_refs, a.old.self.parent.entity_refs
+    k = z3.String("any_name")
+    if ent is not None:
+        ent_ok = And(z3.Select(erefs.present, stmt.name), z3.Select(erefs.vals, stmt.name) == ent, a.self.parent.returned_entity_id is None)
+    else:
+        ent_ok = z3.ForAll([k], And(z3.Select(erefs.present, k) == z3.Select(erefs0.present, k), z3.Select(erefs.vals, k) == z3.Select(erefs0.vals, k)))
+    if isinstance(lowered, SObj) and "BundleRef" in lowered._cls_set:
+        node = lowered._fields.get("@producer")
+        ok = (bound is lowered and node is not None and isinstance(_md(node), dict) and _md(node).get("user_declared") is True and _md(node).get("declared_name") is stmt.name
+              and node.debug_label is stmt.name)
+        return And(ent_ok, z3.BoolVal(bool(ok)))
+    ok = bound is lowered and len(ANNOTATED) == 1 and ANNOTATED[0][0] is stmt.name and ANNOTATED[0][1] is lowered
+    return And(ent_ok, z3.BoolVal(bool(ok)))
+
+
+_call_decl = _mk("initialiser is a function call", {"declared_name": "local name inside the function"})
+_call_decl.params = {"self": ty.TObj("StatementLowerer", only=("StatementLowerer",)),
+                     "stmt": ty.TObj("DeclStmt", only=("DeclStmt",), ftypes=(("name", ty.Str), ("type_name", ty.Str), ("value", ty.TObj("CallExpr", only=("CallExpr",), ftypes=(("name", ty.Str),)))))}
+_call_decl.requires = [("(reset capture)", _reset), ("the call is not place(...) (entity placement: contracts.c09)", lambda a: Not(a.stmt.value.name == "place"))]
+_call_decl.ensures = [("the call is lowered once; a bundle result is declared under the name like any other bundle; other results are bound and annotated; a returned entity is registered", _call_post)]
+_call_decl.uses = {**_call_decl.uses, "opaque.lower_expr": Contract(qualname="dsl_compiler/src/lowering/expression_lowerer.py::ExpressionLowerer.lower_expr", params={"args": _OPQ}, effect=_call_lower,
+                                                                     verify=False, note="the lowered call (contracts.c15): its result, and the entity it returned if any"),
+                   "StatementLowerer._declare_bundle": "inline"}
+_call_decl.dynamic_types = {**_call_decl.dynamic_types, "self.parent": {**_call_decl.dynamic_types["self.parent"], "entity_refs": ty.TDict(ty.Str, ty.Str), "returned_entity_id": ty.TOpt(ty.Str)}}
+_call_decl.properties = ("C15", "C20", "C02")
+CONTRACTS.insert(2, _call_decl)
